@@ -38,6 +38,7 @@ type World struct {
 	heap map[string]*Term
 	// dynamic type tags
 	typeTags map[string]int
+	boxTags map[string]*Term // mangled sort name of a boxed value struct -> its dynamic type tag
 	ContractFiles []string
 	TrustedScan []string
 }
@@ -55,7 +56,7 @@ func loadWorld(repo string) (*World, error) {
 	if err != nil {
 		return nil, err
 	}
-	w := &World{Pkgs: map[string]*packages.Package{}, Reg: newSortReg(), Funcs: map[string]*FuncInfo{}, ByObj: map[*types.Func]*FuncInfo{}, heap: map[string]*Term{}, typeTags: map[string]int{}, RepoDir: repo}
+	w := &World{Pkgs: map[string]*packages.Package{}, Reg: newSortReg(), Funcs: map[string]*FuncInfo{}, ByObj: map[*types.Func]*FuncInfo{}, heap: map[string]*Term{}, typeTags: map[string]int{}, RepoDir: repo, boxTags: map[string]*Term{}}
 	w.CS = &Contracts{Specs: map[string]*SpecFunc{}, Lemmas: map[string]*Lemma{}, Funcs: map[string]*FuncContract{}}
 	for _, p := range pkgs {
 		if len(p.Errors) > 0 {
